@@ -472,6 +472,14 @@ func be4(v uint32) []byte { return []byte{byte(v >> 24), byte(v >> 16), byte(v >
 // lease the server holds (its client id, hardware address, transaction, offered / leased address), so that every
 // branch of the handlers is reached through the byte decoder.
 func (g *rawGen) event() rawEv {
+	e := g.pick()
+	if g.c.Rnd.Intn(8) == 0 {
+		e.p = inflate(g.c, e.p) // big.go: the same message with long options, up to the limit of a frame
+	}
+	return e
+}
+
+func (g *rawGen) pick() rawEv {
 	if g.c.Rnd.Intn(2) == 0 {
 		return g.clean()
 	}
